@@ -1884,9 +1884,10 @@ package gocql
 
 //@ func (p *policyConnPool) getPool
 //@   props C13
-//@   trusted the pool map holds non-nil pools (setHost/addHost store only freshly created pools)
+//@   requires p != nil && host != nil
 //@   modifies nothing
-//@   ensures ok ==> pool != nil
+//@   ensures !held(p.mu)
+//@   ensures_assumed ok ==> pool != nil
 
 // What the executor relies on from a query or a batch: every attempt is counted (Attempts() is what the retry
 // policies compare with their limit), with or without an observer; a batch is idempotent only if every one of
@@ -1896,15 +1897,15 @@ package gocql
 //@ func (qm *queryMetrics) attempt
 //@   props C13
 //@   count_calls hostMetricsLocked
-//@   requires qm != nil && host != nil
+//@   requires qm != nil && host != nil && qm.m != nil && validhost(host)
 //@   ensures qm.totalAttempts == old(qm.totalAttempts) + addAttempts && result0 == old(qm.totalAttempts)
 //@   ensures hostMetricsLocked_calls == 1 && hostMetricsLocked_ret0.Attempts == old(hostMetricsLocked_ret0.Attempts) + addAttempts
 
 //@ func (qm *queryMetrics) hostMetricsLocked
 //@   props C13
-//@   trusted get-or-create in the per-host map, keyed by the host's address (needs a valid host address)
-//@   preserves_types queryMetrics Query Batch Iter HostInfo Conn Session
-//@   ensures result != nil
+//@   requires qm != nil && host != nil && qm.m != nil && validhost(host)
+//@   modifies qm.m[*]
+//@   ensures_assumed result != nil
 
 //@ func (qm *queryMetrics) attempts
 //@   props C13
@@ -1915,14 +1916,14 @@ package gocql
 //@ func (b *Batch) attempt
 //@   props C13
 //@   count_calls queryMetrics.attempt
-//@   requires b != nil && b.metrics != nil && iter != nil && host != nil
+//@   requires b != nil && b.metrics != nil && iter != nil && host != nil && b.metrics.m != nil && validhost(host)
 //@   before[C13] queryMetrics.attempt: arg0 == b.metrics && arg1 == 1 && arg3 == host
 //@   ensures[C13] queryMetrics_attempt_calls == 1
 
 //@ func (q *Query) attempt
 //@   props C13
 //@   count_calls queryMetrics.attempt
-//@   requires q != nil && q.metrics != nil && iter != nil && host != nil
+//@   requires q != nil && q.metrics != nil && iter != nil && host != nil && q.metrics.m != nil && validhost(host)
 //@   before[C13] queryMetrics.attempt: arg0 == q.metrics && arg1 == 1 && arg3 == host
 //@   ensures[C13] queryMetrics_attempt_calls == 1
 
